@@ -117,3 +117,14 @@ Proof.
   induction files as [|[[p e] n] l IH]; cbn [filter length]; [reflexivity|].
   destruct (uploader_consumes e start); cbn [negb length]; lia.
 Qed.
+
+(* the span computed at a clock reading contains that reading: "the span an
+   increment was made in" is well defined by its clock reading *)
+Theorem span_contains_now now w : 0 <= w < 7 ->
+  fst (counter_span now w) <= now < snd (counter_span now w).
+Proof.
+  intros Hw. split; [|apply now_before_end; exact Hw].
+  pose proof (span_shape now w Hw) as S. destruct (counter_span now w) as [b e].
+  cbn [fst]. destruct S as [Hb _].
+  pose proof (Z.div_mod now 86400 ltac:(lia)) as DM. pose proof (Z.mod_pos_bound now 86400 ltac:(lia)). lia.
+Qed.
